@@ -392,6 +392,11 @@ func runStraceClose(c *core.Ctx) {
 	cmds := e2eCmds()
 	cmds = append(cmds[:3], cmds[4:len(cmds)-1]...) // obicsv ignores -o (see runDevFull); no record, no output stream
 	cmds = append(cmds, e2eCmd{"json-gz", "obiconvert", []string{"--json-output", "-Z"}, false}, e2eCmd{"fastq-gz", "obiconvert", []string{"--fastq-output", "-Z"}, true})
+	// the result on the standard output, redirected to a file (one case in three): obicsv included
+	toStdout := c.Idx%3 == 2
+	if toStdout {
+		cmds = append(cmds, e2eCmds()[3])
+	}
 	cm := cmds[c.Idx%len(cmds)]
 	n := []int{1, 3, 30, 400, 3000}[(c.Idx/len(cmds))%5]
 	in := writeInput(c, n, cm.fq)
@@ -401,16 +406,22 @@ func runStraceClose(c *core.Ctx) {
 	defer os.Remove(trace)
 	defer os.Remove(out)
 	base := append([]string{"--no-progressbar", "--max-cpu", fmt.Sprint(1 + c.Rng.Intn(4)), "--batch-size", fmt.Sprint(1 + c.Rng.Intn(50))}, cm.args...)
-	for _, errno := range []string{"EIO", "ENOSPC"} {
+	for _, errno := range []string{"EIO", "ENOSPC", "EINTR", "EDQUOT"} {
 		args := []string{"-f", "-o", trace, "-P", out, "-e", "trace=close", "-e", "inject=close:error=" + errno + ":when=1", filepath.Join(c.BinDir, cm.bin)}
 		args = append(args, base...)
-		args = append(args, "-o", out, in)
-		res := cmdx.Run("strace", args, cmdx.Opt{})
+		var res cmdx.Res
+		if toStdout {
+			args = append(args, in)
+			res = cmdx.Run("/bin/sh", append([]string{"-c", `exec strace "$@" > "$VH_OUT"`, "sh"}, args...), cmdx.Opt{Env: []string{"VH_OUT=" + out}})
+		} else {
+			args = append(args, "-o", out, in)
+			res = cmdx.Run("strace", args, cmdx.Opt{})
+		}
 		tr, _ := os.ReadFile(trace)
 		os.Remove(out)
 		c.Count("evaluations", 1)
 		c.Count("strace_runs", 1)
-		det := map[string]any{"command": cm.bin, "args": base, "records": n, "close_errno": errno, "exit": res.Exit, "strace": cmdx.Tail(tr, 400), "stderr": cmdx.Tail(res.Stderr, 600)}
+		det := map[string]any{"command": cm.bin, "args": base, "records": n, "close_errno": errno, "output_on_stdout": toStdout, "exit": res.Exit, "strace": cmdx.Tail(tr, 400), "stderr": cmdx.Tail(res.Stderr, 600)}
 		if res.TimedOut {
 			c.Inconclusive("watchdog on strace " + cm.bin)
 			continue
@@ -420,7 +431,7 @@ func runStraceClose(c *core.Ctx) {
 			return
 		}
 		injected := strings.Contains(string(tr), "(INJECTED)")
-		c.Key("strace-close/%s/%d/%s/%v", cm.name, n, errno, injected)
+		c.Key("strace-close/%s/%d/%s/%v/%v", cm.name, n, errno, injected, toStdout)
 		if injected {
 			c.Count("close_faults_delivered", 1)
 		}
